@@ -290,20 +290,6 @@ theorem f64Key_ieee (a b : BitVec 64)
   simp only [decide_eq_true_eq] at hz ⊢
   split at ea <;> split at eb <;> (repeat' split) <;> omega
 
-/-- Go's `==` on float64 identifies only the two zeros (and never holds for a NaN) -/
-theorem Flt.eq_imp {a b : BitVec 64} (ha : Flt.isNegZero a = false) (hb : Flt.isNegZero b = false)
-    (h : Flt.eq a b = true) : a = b := by
-  apply BitVec.eq_of_toNat_eq
-  unfold Flt.eq at h
-  simp only [Bool.and_eq_true, decide_eq_true_eq] at h
-  have hk := h.2
-  unfold Flt.key at hk
-  unfold Flt.isNegZero Flt.isZero at ha hb
-  unfold Flt.neg Flt.mag at *
-  have := a.isLt; have := b.isLt
-  simp only [Bool.and_eq_false_iff, decide_eq_false_iff_not, decide_eq_true_eq] at ha hb hk
-  split at hk <;> split at hk <;> omega
-
 /-! ### strings.Compare -/
 
 
